@@ -245,7 +245,7 @@ class Session:
         elif self.mode == "twin":
             o = outcome(lambda: call(g, act, args))
             self.last_fp = o
-            ev["raised"], ev["fresh_raised"], ev["res_ok"], ev["obs"] = o.raised, o.raised, True, []
+            ev["raised"], ev["fresh_raised"], ev["res_ok"], ev["obs"] = o.raised, o.raised, True, ["-"]
             if not o.raised:
                 if act == "ToXarray":
                     self.exports[(h, args[0])] = o.value
